@@ -282,6 +282,25 @@ def run_shard(desc, rec):
                 if rng.random() < 0.4:
                     kw['math_mode_delimiter'] = rng.choice(delims)
                 chain.append(kw)
+            elif rng.random() < 0.15:
+                # one step that moves the boundary between the inline and the display delimiter lists (the same pairs,
+                # classified differently), possibly after the lists were set explicitly and with unrelated steps around
+                rec.hist('bias', 'reclassify-math-delimiters')
+                I = [('$', '$'), ('\\(', '\\)')]
+                Dl = [('$$', '$$'), ('\\[', '\\]')]
+                if rng.random() < 0.5:
+                    I, Dl = rng.choice([([('$', '$')], [('$$', '$$')]), ([('$', '$'), ('€', '€')], [('\\[', '\\]'), ('€€', '€€')]),
+                                        ([('\\(', '\\)')], [('$', '$'), ('\\[', '\\]')])])
+                    chain.append({'latex_inline_math_delimiters': list(I), 'latex_display_math_delimiters': list(Dl)})
+                if rng.random() < 0.4:
+                    chain.append({rng.choice(['enable_comments', 'enable_groups']): rng.random() < 0.5})
+                for _ in range(rng.randint(1, 2)):
+                    allp = I + Dl
+                    j = rng.choice([x for x in range(len(allp) + 1) if x != len(I)])
+                    I, Dl = allp[:j], allp[j:]
+                    chain.append({'latex_inline_math_delimiters': list(I), 'latex_display_math_delimiters': list(Dl)})
+                if rng.random() < 0.4:
+                    chain.append({'in_math_mode': True})
             elif biased:
                 rec.hist('bias', 'math-then-delims')
                 chain.append({'in_math_mode': True, 'math_mode_delimiter': rng.choice(['$', '$$', '\\(', '\\[', '€', '€€'])})
